@@ -163,7 +163,7 @@ def _judge_twin(ctx, name, err, tol, key, detail, cls, lazy_amp):
 def _implicit_tol(solver, disc, fend, cfl, iname, nstep):
     """tolerance for implicit twins: the real integrators solve with a sqrt(eps) finite-difference Jacobian (relative noise
     ~1e-7), which a linear solve amplifies by the condition number of the system matrix of the (last) step"""
-    base = 1e-5 * max(1.0, cfl)
+    base = 3e-5 * max(1.0, cfl)
     try:
         with probes.quiet():
             dt = float(np.min(disc.calc_timestep(fend, cfl)))
@@ -193,6 +193,9 @@ def reflection(ctx, rng, idx):
     if not (_finite(r1) and _finite(r2)):
         raise core.Skip("nonfinite rhs")       # reconstructed face states left the admissible set (possibly in one twin only, by round-off)
     fs = _fluxscale(spec.mname, model, spec.prim)
+    # unlimited reconstructions of rough data can produce extreme face states (tiny density => huge enthalpy flux): the round-off of the
+    # residual is relative to the face fluxes actually formed, not only to the cell-state scale
+    fs = [max(a, float(np.max(np.abs(np.asarray(disc.flux[i], float))))) for i, a in enumerate(fs)]
     dxmin = float(np.min(mesh.vol()))
     tag = "%s/%s" % (spec.mname, spec.flux)
     for i in range(model.neq):
@@ -262,6 +265,7 @@ def units(ctx, rng, idx):
     scalar_pow = any(b["type"] in ("insub_cbc", "outsub_qtot") for b in (spec.bcL, spec.bcR))
     bitwise = spec.mname in ("convection", "shallowwater", "euler1d", "nozzle") and not reg and not scalar_pow and not general
     fs = _fluxscale(spec.mname, model, spec.prim)
+    fs = [max(a_, float(np.max(np.abs(np.asarray(disc.flux[i], float))))) for i, a_ in enumerate(fs)]
     dxmin = float(np.min(mesh.vol()))
     tag = "%s/%s" % (spec.mname, spec.flux)
     bkey = "bc-%s-%s" % (spec.bcL["type"], spec.bcR["type"])
